@@ -29,6 +29,7 @@ type VerifTS struct {
 	NoService  bool   // models Teamserver.Service == nil
 	Calls      []VerifCall
 	ServiceReplies int
+	ExistCalls int
 }
 
 func (t *VerifTS) rec(c VerifCall) { t.Calls = append(t.Calls, c) }
@@ -106,6 +107,7 @@ func (t *VerifTS) AgentLastTimeCalled(AgentID string, LastCallback string, Sleep
 	t.rec(VerifCall{Name: "AgentLastTimeCalled", ID: AgentID})
 }
 func (t *VerifTS) AgentExist(AgentID int) bool {
+	t.ExistCalls++
 	for _, demon := range t.Agents.Agents {
 		var NameID, err = strconv.ParseInt(demon.NameID, 16, 64)
 		if err != nil {
